@@ -572,6 +572,15 @@ class Evaluator:
                             st3.ev('wr', eng, ('rng-state', k), site_of(n, st3), 'rng')
                         yield st3, ('rng', k)
                 return
+            if t0 == 'rng':
+                # raw engine call m_mt(): a draw over the engine's whole range, no distribution
+                for st2, eng in self.eval(a0, st):
+                    k = st2.fresh()
+                    st2.ev('rng', ('rng', k), ('raw-engine',), eng, site_of(n, st2))
+                    if root_of(eng)[0] == 'field':
+                        st2.ev('wr', eng, ('rng-state', k), site_of(n, st2), 'rng')
+                    yield st2, ('rng', k)
+                return
             if t0 == 'randdev':
                 for st2, loc in self.eval(a0, st):
                     k = st2.fresh()
@@ -1369,6 +1378,8 @@ def show(t, depth=0):
         return '%s[%s]' % (s(t[1]), s(t[2]))
     if k == 'deref':
         return '*%s' % s(t[1])
+    if k == '$':
+        return '$' + t[1]
     if k == 'var':
         return '%s' % t[1]
     if k == 'p':
@@ -1403,7 +1414,7 @@ def show(t, depth=0):
     if k in ('era', 'ld'):
         return s(t[2]) if t[1] == 0 else '%s~%d' % (s(t[2]), t[1])
     if k == 'lv':
-        return '%s~L%s%s' % (t[1], t[2], t[3][0])
+        return '%s~L%s%s' % (t[1], t[2], t[3][0]) if len(t) >= 4 else '%s~' % t[1]
     if k == 'elem':
         return 'elem(%s)' % s(t[1])
     if k == 'get':
